@@ -41,3 +41,20 @@ Theorem C07_every_continuation_runs_refuted :
     let '(s, o) := run init ops in obs_ids (concat o) = [] /\ outst s = 0 /\ cont_ids (acbs s) = [1].
 Proof. exact every_continuation_runs_refuted. Qed.
 Print Assumptions C07_every_continuation_runs_refuted.
+
+(* Integrated model Comp/Core.v (any number of connections, one flat resource, subscribe requests with their access and get
+   requests, events, both kinds of task queue; run in lock-step with the real gateway on every check), every sequence of
+   stimuli and scheduler grants: a connection is sent at most one response, only ever with the id of the request it made,
+   and exactly that one once nothing is left to do. *)
+From RG Require Comp.Conv Comp.Core Proofs.CoreProofs.
+Theorem C07_core_one_response_per_request :
+  forall (val upd : Type) (app : upd -> val -> val) (norm : upd -> val -> option upd) (d : val),
+  (forall u v, norm u v = None -> app u v = v) ->
+  (forall u v u', norm u v = Some u' -> app u' v = app u v) ->
+  forall t ops c,
+  let s := fst (Core.exec val upd app norm d t ops) in let outs := snd (Core.exec val upd app norm d t ops) in
+  length (Core.resps val upd c outs) <= 1 /\
+  (forall id, In id (Core.resps val upd c outs) -> Core.first_req upd c ops = Some id) /\
+  (Core.quiescent val upd s -> Core.resps val upd c outs = match Core.first_req upd c ops with Some id => [id] | None => [] end).
+Proof. exact CoreProofs.core_one_response. Qed.
+Print Assumptions C07_core_one_response_per_request.
